@@ -482,6 +482,7 @@ FORWARDING_EXCEPTIONS = {
     ("rfc7516.models:CompactEncryption.attach_recipient", "rfc7516.models:Recipient.__init__", "header"): "compact JWE has no per-recipient header: None by construction",
     ("jwe:encrypt_json", "jwk:guess_key", "obj"): "the object whose headers name the key is the recipient, not the message",
     ("rfc7797.compact:_extract_compact", "rfc7515.model:CompactSignature.__init__", "payload"): "attached form: the payload is the token's own segment (the detached branch passes the parameter)",
+    ("rfc7797.compact:deserialize_compact", "rfc7515.model:CompactSignature.__init__", "payload"): "the same site when the extractor is dissolved into the reader: attached form, the payload is the token's own segment",
     ("rfc7517.pem:CryptographyBinding.as_bytes", "rfc7517.pem:dump_pem_key", "private"): "the 'export what the key holds' branch passes key.is_private (decided by C12 R12.7)",
 }
 
